@@ -246,7 +246,22 @@ func info(n int, r *hx.RNG) []byte {
 }
 
 func hostileBGP(r *hx.RNG, p bmpx.Peer) ([]byte, string) {
-	switch r.Intn(11) {
+	switch r.Intn(14) {
+	case 11, 12, 13:
+		// one path attribute's length off by a little (the value then overlaps its neighbours)
+		var an []bmpx.NLRI
+		if r.Bool() {
+			an = append(an, bmpx.Pfx4(r.Intn(4), bmpx.PathID(p, false, r)))
+		}
+		if r.Bool() || len(an) == 0 {
+			an = append(an, bmpx.Pfx6(r.Intn(3), bmpx.PathID(p, true, r)))
+		}
+		b := bmpx.UpdateForV(p, nil, an, bmpx.PickVariant(r))
+		if offs := bmpx.AttrLenOffsets(b); len(offs) > 0 {
+			o := offs[r.Intn(len(offs))]
+			b[o] = byte(int(b[o]) + r.Pick([]int{1, -1, 2, 4, -4}))
+		}
+		return b, "rm_attrlen"
 	case 0:
 		return nil, "rm_empty"
 	case 1:
